@@ -21,7 +21,9 @@ OPS = {'F': 'fail', 'T': 'trigger_error', 'X': 'exit_on_error', 'E': 'get_last_e
 CR = 'types::command::CommandResult'
 
 
-def job_history(ctx, jr, seqs):
+def job_history(ctx, jr, seqs, from_arbitrary=False):
+    """from_arbitrary: ONE operation from an arbitrary error-protocol state (last error present or not with arbitrary message / line /
+    source, exit_on_error arbitrary), the state afterwards compared field by field (step lemma, DESIGN.md 8.9)"""
     jr.bounds = dict(sequences=[''.join(s) for s in seqs][:40], steps=len(seqs[0]), messages=MSGS, exit_on_error_values=FLAGS, source_lines='1..9 symbolic per instruction',
                      source_file='none or f.ds per instruction')
     for seq in seqs:
@@ -43,6 +45,18 @@ def job_history(ctx, jr, seqs):
         instrs = []; desc = []; srcs = []
         # spec state
         flag = False; last = dict(d=False, msg=S(0, []), line=S(0, []), src=S(0, []))
+        state0 = M([])
+        SVT = 'types::runtime::StateValue'; SV = ctx.types.enums[SVT]; SV_B, SV_S, SV_SUB = SV.index('Boolean'), SV.index('String'), SV.index('SubState')
+        if from_arbitrary:
+            sub_p = e.fresh_bool('substate.present'); last_p = e.fresh_bool('last.present'); flag_p = e.fresh_bool('flag.present'); flag0 = e.fresh_bool('flag.value')
+            m0 = H.sym_str(e, 'last.msg', 3); l0 = e.fresh_int('last.line', 0, 99); s0 = H.sym_str(e, 'last.src', 3)
+            from mirsym.models import int_to_str
+            l0s = int_to_str(e, st, l0)
+            e.assume(z3.Implies(z3.Not(sub_p), z3.And(z3.Not(last_p), z3.Not(flag_p))))
+            sub0 = M([(last_p, mk_str('error'), E(SVT, SV_S, {SV_S: [m0]})), (last_p, mk_str('line'), E(SVT, SV_S, {SV_S: [l0s]})), (last_p, mk_str('source'), E(SVT, SV_S, {SV_S: [s0]})),
+                      (flag_p, mk_str('exit_on_error'), E(SVT, SV_B, {SV_B: [flag0]}))])
+            state0 = M([(sub_p, mk_str('duckscriptsdk::command::on_error'), E(SVT, SV_SUB, {SV_SUB: [sub0]}))])
+            flag = zand(flag_p, flag0); last = dict(d=last_p, msg=m0, line=l0s, src=s0)
         vars_d = [False] * len(OUTS); vars_v = [S(0, [])] * len(OUTS)
         alive = True; fail_msg = S(0, []); fail_line = 0; fail_src = 0
         for k, op in enumerate(seq):
@@ -85,13 +99,26 @@ def job_history(ctx, jr, seqs):
             for q in range(len(OUTS)):
                 c = zand(step_alive, zeq(oi, q + 1))
                 vars_d[q] = simp(zite(c, outp, vars_d[q])); vars_v[q] = merge(zand(c, outp), outv, vars_v[q])
-        context = T([M([]), M([]), commands], 'types::runtime::Context')
+        context = T([M([]), state0, commands], 'types::runtime::Context')
         env = some(T([Opaque('out'), Opaque('err'), e.alloc(st, False)], 'types::env::Env'))
         rs, rv = e.run('core', 'runner::run', [V(len(instrs), instrs), context, env], st)
         jr.symex_time += time.time() - t0
         if rs is None: raise Abort('run never returns')
         okc = simp(zeq(rv.d, 0))
         checks = [('the run survives iff no error occurs while exit_on_error is on', zeq(okc, alive))]
+        if from_arbitrary and 0 in rv.p:
+            # the protocol state afterwards, field by field
+            sf, ssub, _ = map_lookup(e, rs, rv.p[0][0].f[1], mk_str('duckscriptsdk::command::on_error'))
+            subm = ssub.p[SV_SUB][0] if isinstance(ssub, E) and SV_SUB in ssub.p else M([])
+            def field(name, variant):
+                f_, v_, _ = map_lookup(e, rs, subm, mk_str(name))
+                return zand(sf, f_), (v_.p[variant][0] if isinstance(v_, E) and variant in v_.p else None), (zeq(v_.d, variant) if isinstance(v_, E) else False)
+            for name, exp in (('error', last['msg']), ('line', last['line']), ('source', last['src'])):
+                f_, val, isv = field(name, SV_S)
+                checks.append(('state: last %s present iff an error was recorded' % name, zimp(okc, zeq(f_, last['d']))))
+                checks.append(('state: last %s value' % name, zimp(zand(okc, f_), zand(isv, str_eq(val, exp)) if val is not None else False)))
+            f_, val, isv = field('exit_on_error', SV_B)
+            checks.append(('state: exit_on_error flag', zimp(okc, zeq(zand(f_, isv, val if val is not None else False), flag))))
         if 0 in rv.p:
             fin = rv.p[0][0].f[0]
             for q, name in enumerate(OUTS):
@@ -114,7 +141,18 @@ def job_history(ctx, jr, seqs):
             for (op, oi, ln, hs, mi, fi) in desc:
                 lines.append(dict(op=OPS[op], out=OUTS[solve.model_int(m, oi) - 1] if solve.model_int(m, oi) else None, line=solve.model_int(m, ln), src=solve.model_int(m, hs),
                                   msg=MSGS[solve.model_int(m, mi)], flag=FLAGS[solve.model_int(m, fi)]))
-            return dict(kind='c10', ops=lines)
+            d_ = dict(kind='c10', ops=lines)
+            if from_arbitrary:
+                # rebuild the arbitrary protocol state natively: an earlier failing instruction and an exit_on_error line
+                pre = []
+                sx_ = lines[0]['src']
+                if solve.model_bool(m, last_p): pre.append(dict(op='fail', out=None, line=solve.model_int(m, l0), src=sx_, msg=solve.model_str(m, m0), flag=''))
+                if solve.model_bool(m, flag_p): pre.append(dict(op='exit_on_error', out=None, line=1, src=sx_, msg='', flag='true' if solve.model_bool(m, flag0) else 'false'))
+                # ... and make the state after the operation observable: query the last error, then fail once more (fatal iff the flag is on)
+                post = [dict(op='get_last_error', out='o1', line=7, src=sx_, msg='', flag=''), dict(op='get_last_error_line', out='o2', line=8, src=sx_, msg='', flag=''),
+                        dict(op='fail', out=None, line=9, src=sx_, msg='m1', flag=''), dict(op='get_last_error', out='o1', line=9, src=sx_, msg='', flag='')]
+                d_['ops'] = pre + lines + post; d_['kind'] = 'lemma'
+            return d_
         res = discharge_known(e, jr, PID, {}, extract)
         witness(jr, e, 'sequence %s' % ''.join(seq), rs.g, extract)
         H.finish_job(jr, e, res)
@@ -160,6 +198,18 @@ def py_model(ops, pos):
 
 
 def replayer(v):
+    if v.get('kind') == 'lemma' and 'ops' not in v:
+        # a runner-level lemma: first the error-protocol panel (failing instruction in the main text, in the main file, in an
+        # included file, after instructions of another file; exit_on_error on), then the panel of scripted runs of C03
+        def op(name, src, line=1, out=None, msg='', flag=''): return dict(op=name, out=out, line=line, src=src, msg=msg, flag=flag)
+        for s1, s2 in ((0, 0), (1, 1), (1, 2), (2, 1), (0, 1)):
+            for fatal in (False, True):
+                ops = [op('ok', s1)] + ([op('exit_on_error', s1, flag='true')] if fatal else []) + [op('ok', s2), op('fail', s2, msg='boom', out='o2'),
+                       op('get_last_error_source', s2, out='o1'), op('get_last_error_line', s2, out='o2')]
+                got = replayer(dict(kind='c10', ops=ops))
+                if got[0]: v['native'] = got; v['ops'] = ops; return (True, 'error protocol run %r: %s' % ([(o['op'], o['src']) for o in ops], got[1]))
+        from .c03 import replayer as c03_replayer
+        return c03_replayer(v)
     ops = v['ops']; queue = []
     def text(op):
         pre = (op['out'] + ' = ') if op['out'] else ''
@@ -202,7 +252,11 @@ def main(tier, seed):
     groups = [seqs[i::12] for i in range(12)]
     for gi, g in enumerate(groups):
         if g: chk.job(job_history, 'programs/%d' % gi, seqs=g)
-    chk.bounds = dict(program_length='<= %d' % k, op_kind_sequences=len(seqs), messages=MSGS, flags=FLAGS)
+    chk.job(job_history, 'step/all operations', seqs=[(o,) for o in 'FTXELSN'], from_arbitrary=True)
+    from .c03 import job_runner_step, job_on_error_lemma
+    chk.job(job_runner_step, 'step/runner reports errors', n=5, pid=PID, only=('error handler', 'Runtime error carrying', 'failing error handler', 'output variable set'))
+    chk.job(job_on_error_lemma, 'step/runner invokes on_error', pid=PID)
+    chk.bounds = dict(step_lemmas='each operation once from an arbitrary protocol state (last error absent or arbitrary message <= 3 chars / line 0..99 / source <= 3 chars, exit_on_error absent / true / false); state afterwards compared field by field', program_length='<= %d' % k, op_kind_sequences=len(seqs), messages=MSGS, flags=FLAGS)
     chk.assumptions = ['failing library command = harness command returning Error(message) (plus the real trigger_error); on_error, exit_on_error, get_last_error* are the real run functions',
                        'top-level programs only: errors inside functions/loops/script-implemented commands/included files are not covered here',
                        'assert_error and set_error not covered', 'op kinds case-split (fixed + seeded random sequences); outputs, lines, sources, messages and flag spellings symbolic']
